@@ -38,6 +38,7 @@ def c01(quick):
             S.append((D(mode=mode, nj=2, pre="2*n_jobs", bs=2, calls=[dict(n=n)]), "random", rnd))
             S.append((D(mode=mode, nj=3, pre="1.5*n_jobs", bs="auto", bsizes=[1, 2, 4], calls=[dict(n=n)]), "random", rnd))
         S.append((D(mode=mode, nj=2, pre=4, bs=1, inline=True, calls=[dict(n=5)]), "dfs", lim))
+        S.append((D(mode=mode, nj=2, pre=1, bs=1, inline=True, calls=[dict(n=2), dict(n=3)]), "dfs", 300))
         S.append((D(mode=mode, nj=2, pre=2, bs=3, calls=[dict(n=10)]), "random", rnd))
         S.append((D(mode=mode, nj=2, pre="all", bs="auto", bsizes=[1, 3], calls=[dict(n=9)]), "random", rnd))
         S.append((D(mode=mode, nj=2, pre=3, bs=1, managed=True, calls=[dict(n=4), dict(n=3)]), "random", rnd))
@@ -110,6 +111,10 @@ def c16(quick):
         S.append((D(mode=mode, nj=2, pre=4, bs=1, inline=True, calls=[dict(n=6, cons="free")]), "random", rnd))
         S.append((D(mode=mode, nj=2, pre=2, bs=1, calls=[dict(n=4)]), "dfs", lim))
         S.append((D(mode=mode, nj=2, pre=2, bs=1, managed="per_call", calls=[dict(n=4, cons="leave"), dict(n=3, cons="leave"), dict(n=2)]), "dfs", lim))
+        # completions delivered inside submit (a backend whose futures are already done when the callback is attached):
+        # the first callback may exhaust the input before the caller's dispatch loop has finished its first step
+        for pre in (1, 2):
+            S.append((D(mode=mode, nj=2, pre=pre, bs=1, inline=True, calls=[dict(n=2), dict(n=3)]), "dfs", 300))
         S.append((D(mode=mode, nj=2, pre=3, bs=2, managed="per_call", calls=[dict(n=9, cons="leave"), dict(n=3)]), "random", rnd))
     return S
 
